@@ -716,7 +716,7 @@ pub fn gpos_mark(rng: &mut Rng, pool: &mut Pool, kind: u16, hostile: bool) -> Ve
 
 // ---- GDEF ---------------------------------------------------------------------------------------
 
-pub fn gdef(rng: &mut Rng, pool: &Pool, ligs: &[u16]) -> Vec<u8> {
+pub fn gdef(rng: &mut Rng, pool: &Pool, ligs: &[u16], ivs: Option<Vec<u8>>) -> Vec<u8> {
     let mut classes: Vec<(u16, u16)> = Vec::new();
     for &g in &pool.hot {
         let c = if pool.marks.contains(&g) {
@@ -736,9 +736,9 @@ pub fn gdef(rng: &mut Rng, pool: &Pool, ligs: &[u16]) -> Vec<u8> {
         classes.push((rng.below(pool.n as usize) as u16, 1 + rng.below(if pool.wild { 6 } else { 4 }) as u16));
     }
     let mark_attach: Vec<(u16, u16)> = pool.marks.iter().map(|&g| (g, 1 + rng.below(3) as u16)).collect();
-    let with_sets = rng.chance(2, 3);
+    let with_sets = rng.chance(2, 3) || ivs.is_some();
     let mut b = B::new();
-    b.u16(1).u16(if with_sets { 2 } else { 0 });
+    b.u16(1).u16(if ivs.is_some() { 3 } else if with_sets { 2 } else { 0 });
     b.off(classdef(&classes, rng.chance(1, 4)));
     b.u16(0).u16(0);
     if mark_attach.is_empty() {
@@ -764,7 +764,169 @@ pub fn gdef(rng: &mut Rng, pool: &Pool, ligs: &[u16]) -> Vec<u8> {
         }
         b.off(s.b);
     }
+    if let Some(ivs) = ivs {
+        // offset32 to the item variation store, appended after everything else
+        let at = b.w.len();
+        b.u32(0);
+        let mut bytes = b.done();
+        let pos = bytes.len() as u32;
+        bytes[at..at + 4].copy_from_slice(&pos.to_be_bytes());
+        bytes.extend_from_slice(&ivs);
+        return bytes;
+    }
     b.done()
+}
+
+// ---- variations -----------------------------------------------------------------------------------
+
+pub fn fvar(rng: &mut Rng, axes: usize) -> Vec<u8> {
+    let mut w = W::new();
+    w.u16(1).u16(0).u16(16).u16(2).u16(axes as u16).u16(20).u16(0).u16((4 * axes + 4) as u16);
+    let tags: &[&[u8; 4]] = &[b"wght", b"wdth", b"slnt", b"opsz"];
+    for a in 0..axes {
+        let (min, def, max) = *rng.pick(&[(100i32, 400i32, 900i32), (0, 0, 1), (-10, 0, 0), (50, 100, 200)]);
+        w.bytes(tags[a % 4]).i32(min << 16).i32(def << 16).i32(max << 16).u16(0).u16(256 + a as u16);
+    }
+    w.b
+}
+
+fn f2dot14(rng: &mut Rng) -> i16 {
+    match rng.below(8) {
+        0 => -16384,
+        1 => 0,
+        2 => 16384,
+        3 => 8192,
+        4 => -8192,
+        5 if rng.chance(1, 4) => *rng.pick(&[i16::MAX, i16::MIN]),
+        _ => rng.range(-16384, 16384) as i16,
+    }
+}
+
+/// ItemVariationStore with up to 3 data sets of up to 4 items (what `device()` refers to).
+pub fn item_variation_store(rng: &mut Rng, axes: usize, wild: bool) -> Vec<u8> {
+    let nregions = 1 + rng.below(3);
+    let mut rl = W::new();
+    rl.u16(if wild && rng.chance(1, 6) { axes as u16 + 1 } else { axes as u16 }).u16(nregions as u16);
+    for _ in 0..nregions * axes {
+        let mut v = [f2dot14(rng), f2dot14(rng), f2dot14(rng)];
+        if !wild || rng.chance(3, 4) {
+            v.sort();
+        }
+        rl.i16(v[0]).i16(v[1]).i16(v[2]);
+    }
+    let ndata = 1 + rng.below(3);
+    let mut datas: Vec<Vec<u8>> = Vec::new();
+    for _ in 0..ndata {
+        let items = 1 + rng.below(4);
+        let nri = 1 + rng.below(nregions);
+        let short = rng.below(nri + 1);
+        let mut d = W::new();
+        d.u16(items as u16).u16(if wild && rng.chance(1, 8) { nri as u16 + 1 } else { short as u16 }).u16(nri as u16);
+        for _ in 0..nri {
+            d.u16(if wild && rng.chance(1, 6) { nregions as u16 + rng.below(2) as u16 } else { rng.below(nregions) as u16 });
+        }
+        for _ in 0..items {
+            for k in 0..nri {
+                if k < short {
+                    d.i16(match rng.below(6) {
+                        0 => *rng.pick(&[i16::MAX, i16::MIN]),
+                        _ => rng.range(-300, 300) as i16,
+                    });
+                } else {
+                    d.i8(rng.range(-128, 127) as i8);
+                }
+            }
+        }
+        datas.push(d.b);
+    }
+    let mut w = W::new();
+    let hdr = 8 + 4 * ndata;
+    w.u16(1).u32(hdr as u32).u16(ndata as u16);
+    let mut at = hdr + rl.len();
+    for d in &datas {
+        w.u32(at as u32);
+        at += d.len();
+    }
+    w.bytes(&rl.b);
+    for d in &datas {
+        w.bytes(d);
+    }
+    w.b
+}
+
+/// FeatureVariations table: condition sets over the axes, each replacing a few features by
+/// feature tables with other lookup lists.
+pub fn feature_variations(rng: &mut Rng, axes: usize, nfeatures: usize, nlookups: usize, exclusive: &[u16], wild: bool) -> Vec<u8> {
+    let nrec = 1 + rng.below(3);
+    let mut recs: Vec<(Vec<u8>, Vec<u8>)> = Vec::new();
+    for _ in 0..nrec {
+        // condition set
+        let nc = if rng.chance(1, 5) { 0 } else { 1 + rng.below(2) };
+        let mut cs = W::new();
+        cs.u16(nc as u16);
+        for i in 0..nc {
+            cs.u32((2 + 4 * nc + 8 * i) as u32);
+        }
+        for _ in 0..nc {
+            let mut r = [f2dot14(rng), f2dot14(rng)];
+            if !wild || rng.chance(3, 4) {
+                r.sort();
+            }
+            if rng.chance(1, 3) {
+                r = [-16384, 16384];
+            }
+            let axis = if wild && rng.chance(1, 6) { axes as u16 + rng.below(2) as u16 } else { rng.below(axes) as u16 };
+            cs.u16(if wild && rng.chance(1, 10) { 2 } else { 1 }).u16(axis).i16(r[0]).i16(r[1]);
+        }
+        // feature table substitution
+        let ns = 1 + rng.below(3.min(nfeatures.max(1)));
+        let mut idx: Vec<u16> = (0..ns).map(|_| if wild && rng.chance(1, 8) { nfeatures as u16 + 1 } else { rng.below(nfeatures.max(1)) as u16 }).collect();
+        if !wild || rng.chance(3, 4) {
+            idx.sort();
+            idx.dedup();
+        }
+        let mut fts = W::new();
+        fts.u16(1).u16(0).u16(idx.len() as u16);
+        let mut at = 6 + 6 * idx.len();
+        let mut tables: Vec<Vec<u8>> = Vec::new();
+        for fi in &idx {
+            let k = rng.below(3);
+            let mut f = W::new();
+            f.u16(0).u16(k as u16);
+            for _ in 0..k {
+                let mut l = rng.below(nlookups.max(1)) as u16;
+                if exclusive.contains(&l) {
+                    l = 0;
+                }
+                if exclusive.contains(&l) {
+                    f.u16(0xFFFF);
+                } else {
+                    f.u16(if wild && rng.chance(1, 10) { 0xFFFF } else { l });
+                }
+            }
+            fts.u16(*fi).u32(at as u32);
+            at += f.len();
+            tables.push(f.b);
+        }
+        for tb in tables {
+            fts.bytes(&tb);
+        }
+        recs.push((cs.b, fts.b));
+    }
+    let mut w = W::new();
+    w.u16(1).u16(0).u32(nrec as u32);
+    let mut at = 8 + 8 * nrec;
+    let mut body = W::new();
+    for (cs, fts) in &recs {
+        let cs_at = at;
+        at += cs.len();
+        let fts_at = at;
+        at += fts.len();
+        w.u32(if rng.chance(1, 8) { 0 } else { cs_at as u32 }).u32(if rng.chance(1, 10) { 0 } else { fts_at as u32 });
+        body.bytes(cs).bytes(fts);
+    }
+    w.bytes(&body.b);
+    w.b
 }
 
 // ---- table assembly -----------------------------------------------------------------------------
@@ -775,7 +937,7 @@ pub struct ScriptDef {
     pub langs: Vec<(Option<u32>, Vec<u16>)>,
 }
 
-pub fn layout_table(scripts: &[ScriptDef], features: &[(u32, Vec<u16>)], lookups: &[Lk], gpos: bool) -> Option<Vec<u8>> {
+pub fn layout_table(scripts: &[ScriptDef], features: &[(u32, Vec<u16>)], lookups: &[Lk], gpos: bool, variations: Option<Vec<u8>>) -> Option<Vec<u8>> {
     // script list
     let mut sl = B::new();
     let mut ss: Vec<&ScriptDef> = scripts.iter().collect();
@@ -848,8 +1010,20 @@ pub fn layout_table(scripts: &[ScriptDef], features: &[(u32, Vec<u16>)], lookups
         return None;
     }
     let mut w = W::new();
-    w.u16(1).u16(0).u16(10).u16(10 + sl.len() as u16).u16((10 + sl.len() + fl.len()) as u16);
-    w.bytes(&sl).bytes(&fl).bytes(&ll);
+    match variations {
+        None => {
+            w.u16(1).u16(0).u16(10).u16(10 + sl.len() as u16).u16((10 + sl.len() + fl.len()) as u16);
+            w.bytes(&sl).bytes(&fl).bytes(&ll);
+        }
+        Some(fv) => {
+            if 14 + sl.len() + fl.len() + ll.len() > 0xFFFF {
+                return None;
+            }
+            w.u16(1).u16(1).u16(14).u16(14 + sl.len() as u16).u16((14 + sl.len() + fl.len()) as u16);
+            w.u32((14 + sl.len() + fl.len() + ll.len()) as u32);
+            w.bytes(&sl).bytes(&fl).bytes(&ll).bytes(&fv);
+        }
+    }
     Some(w.b)
 }
 
